@@ -241,3 +241,87 @@ Proof.
   - cbn. repeat constructor; cbn; intros H; repeat (destruct H as [H|H]; try discriminate); exact H.
   - split; intros d Hd; cbn in Hd; repeat (destruct Hd as [Hd|Hd]; [subst d; cbn; try discriminate; repeat constructor; intros []|]); contradiction.
 Qed.
+
+(* ---- the composed system (Model/Whole.v, Props/Whole.v): C06 holds OF the pipeline model's call log ----
+   [Whole.to_world] / [Whole.disp_pkgs] derive the pipeline's world and Dispatch's packages from ONE description
+   [wps]; [Whole.disp_gen] is this file's recording generator as a state machine of the pipeline; [Whole.whole_env]
+   is the pipeline with the enabling rule of this file's model (is_generator_enabled on merge [G; package; declaration])
+   and the byte-level gengo.sum of C08. *)
+Require Gengo.Model.Pipeline Gengo.Model.Whole Gengo.Proofs.Pipeline Gengo.Proofs.WholeDispatch Gengo.Props.Whole.
+
+(* Agreement of the two models of doGenerate / the Defer loop / pkgExecute / Execute: execute lists, position by
+   position, the GenerateType / GenerateAliasType / callback events of Pipeline.exec_trace, and both end alike
+   (no package skipped through gengo.sum, everything rendered parses: outside Dispatch's scope). *)
+Theorem C06_whole_dispatch_is_pipeline :
+  forall fmt order rank G wps fuel gens a modroot s,
+    NoDup (map Whole.wp_path wps) ->
+    (forall src, fmt src <> None) ->
+    let E := Whole.whole_env fmt order rank G in
+    let w := Whole.to_world modroot wps in
+    (forall wp, In wp wps ->
+       Pipeline.pkg_changed a w (Pipeline.load_prev E a w s) (Whole.to_pkginfo wp) = true) ->
+    (forall wp g, In wp wps -> In g gens -> WholeDispatch.fuel_ok G fuel wp g) ->
+    exists devs o,
+      execute fixed_all (Pipeline.a_all a) (Whole.disp_pkgs wps) gens G = Ok (devs, o)
+      /\ Forall2 (WholeDispatch.ev_match G wps gens)
+                 (Pipeline.exec_trace E a w (map (Whole.disp_gen wps fuel) gens) s) (filter is_callback devs)
+      /\ WholeDispatch.out_match (Pipeline.exec_outcome E a w (map (Whole.disp_gen wps fuel) gens) s) o.
+Proof. exact Gengo.Props.Whole.Whole_dispatch_is_pipeline. Qed.
+Print Assumptions C06_whole_dispatch_is_pipeline.
+
+(* C06_exactly_once and C06_defers_exactly_once as statements about the log of a successful run of the pipeline *)
+Theorem C06_whole_exactly_once_of_pipeline_trace :
+  forall fmt order rank G wps fuel gens a modroot s wp g,
+    NoDup (map Whole.wp_path wps) -> In wp wps -> In g gens ->
+    NoDup (keys G) -> NoDup (keys (WholeDispatch.P_of wp)) ->
+    (forall d, In d (pk_defs (Whole.wp_d wp)) -> NoDup (keys (td_tags d))) ->
+    NoDup (map td_name (filter td_pkgscope (pk_defs (Whole.wp_d wp)))) ->
+    (forall d, In d (pk_defs (Whole.wp_d wp)) -> td_action d <> AErr) ->
+    (forall d, In d (pk_defs (Whole.wp_d wp)) -> forallb no_err_tree (td_defers d) = true) ->
+    WholeDispatch.fuel_ok G fuel wp g ->
+    let E := Whole.whole_env fmt order rank G in
+    let w := Whole.to_world modroot wps in
+    let gs := map (Whole.disp_gen wps fuel) gens in
+    Pipeline.exec_outcome E a w gs s = Pipeline.Done ->
+    Gengo.Proofs.Pipeline.processed E a w s (Whole.to_pkginfo wp) = true ->
+    exists cs ran pre post,
+      NoDup cs
+      /\ (forall k d, In (k, d) cs <->
+            In d (pk_defs (Whole.wp_d wp)) /\ td_pkgscope d = true
+            /\ enabled_eff_spec (g_name g) G (WholeDispatch.P_of wp) (td_tags d) = true
+            /\ ((k = CT /\ td_kind d = KNamed) \/ (k = CA /\ td_kind d = KAlias /\ g_alias g = true)))
+      /\ Permutation (map root_id ran) (ids_all (registered cs))
+      /\ Pipeline.exec_trace E a w gs s
+         = pre ++ (map (WholeDispatch.tr_call wp g) cs
+                   ++ map (WholeDispatch.tr_defer wp g) (combine (seq 0 (List.length ran)) ran)) ++ post.
+Proof. exact Gengo.Props.Whole.Whole_exactly_once_of_pipeline_trace. Qed.
+Print Assumptions C06_whole_exactly_once_of_pipeline_trace.
+
+(* C06_write_after_callbacks, tied to the pipeline's file effects: the one write event of a package names exactly the
+   generators whose destinations Pipeline.pkg_effects opens *)
+Theorem C06_whole_writes_are_pipeline_writes :
+  forall fmt order rank G wps fuel gens a wp,
+    NoDup (map Whole.wp_path wps) -> (forall src, fmt src <> None) -> (forall p l, Permutation (order p l) l) ->
+    In wp wps -> (forall g, In g gens -> WholeDispatch.fuel_ok G fuel wp g) ->
+    let E := Whole.whole_env fmt order rank G in
+    let gs := map (Whole.disp_gen wps fuel) gens in
+    snd (Pipeline.pkg_effects E a gs (Whole.to_pkginfo wp)) = Pipeline.Done ->
+    exists devs ws,
+      pkg_execute fixed_all (Whole.wp_d wp) gens G
+      = Ok (devs ++ (if is_nil ws then [] else [EWrites (pk_id (Whole.wp_d wp)) ws]), Done)
+      /\ ws = map g_idx (filter (WholeDispatch.renders_on fmt order rank G wps fuel wp) gens)
+      /\ Permutation (WholeDispatch.truncated (fst (fst (Pipeline.pkg_effects E a gs (Whole.to_pkginfo wp)))))
+                     (map (fun g => Pipeline.gen_file a (Whole.to_pkginfo wp) (g_name g))
+                          (filter (WholeDispatch.renders_on fmt order rank G wps fuel wp) gens)).
+Proof. exact Gengo.Props.Whole.Whole_dispatch_writes_are_pipeline_writes. Qed.
+Print Assumptions C06_whole_writes_are_pipeline_writes.
+
+(* for ANY generators: what one generator is called for on one processed package is a contiguous segment of the call log
+   of a successful run of the pipeline *)
+Theorem C06_whole_session_is_a_segment_of_the_trace :
+  forall (E : Pipeline.env) a w gens s p g,
+    Pipeline.exec_outcome E a w gens s = Pipeline.Done ->
+    In p (Pipeline.w_pkgs w) -> Gengo.Proofs.Pipeline.processed E a w s p = true -> In g gens ->
+    exists pre post, Pipeline.exec_trace E a w gens s = pre ++ Pipeline.go_trace (Pipeline.gen_run E g p) ++ post.
+Proof. exact Gengo.Props.Whole.Whole_session_is_a_segment_of_the_trace. Qed.
+Print Assumptions C06_whole_session_is_a_segment_of_the_trace.
